@@ -1608,3 +1608,18 @@ def check_case(c):
     if sub == "polyroots":
         return _check_polyroots(c, res)
     raise ValueError(sub)
+
+
+def _equal_absim(case):
+    """real-coefficient polynomial with two different conjugate pairs whose |Im| are exactly equal (the sort key
+    (|Im|, Re) then decides by rounding noise) -- region of known finding C29-polyroots-conj-order"""
+    from fractions import Fraction as _F
+    seen = {}
+    for re_, im_, _m in case.get("roots", []):
+        im = abs(_F(im_))
+        if im:
+            seen.setdefault(im, set()).add(_F(re_))
+    return any(len(v) > 1 for v in seen.values())
+
+
+REGIONS = {"equal_absim": _equal_absim}
